@@ -240,7 +240,7 @@ class Engine:
             t = r["trace"]
             sc = t["scenario"]
             ob = (r["detail"] or r["reason"]).strip('"')
-            sig = "copy:%s:%s:%s:%s" % (ob, sc["shape"], sc["pair"], optsig(sc))
+            sig = "copy:%s:%s:%s" % (ob, "layout" if sc["pair"] in ("reg2dir", "dir2dir") else "registry", cause_of(sc))
             what = "%s at event %s of trace %s (shape %s, %s, opts %s, init %s, tag0 %s, mode %s, faults %s%s%s)" % (
                 ob, json.dumps(r["event"], sort_keys=True)[:300], t["id"], sc["shape"], sc["pair"], json.dumps(sc["opts"]),
                 ",".join(sc["init"]), sc["tag0"], sc["mode"], json.dumps(sc.get("faults", [])),
@@ -404,7 +404,9 @@ def shapes_tla(cat):
            "(* <<child, role, platform, inline>> in document order (duplicates kept);      *)",
            "(* refs: <<referrer, subject, artifact type>>; dtags: <<tag, on, to>>;         *)",
            "(* fbs: the fall-back referrer indexes <<index, subject>> a source without     *)",
-           "(* referrers API holds under the tag sha256-<hex of subject>.                  *)",
+           "(* referrers API holds under the tag sha256-<hex of subject>; uniq / uniqfb:    *)",
+           "(* objects that exactly one descriptor, referrer edge or digest tag names       *)",
+           "(* (without / with those fall-back indexes), used by (D)'s reduction.           *)",
            "EXTENDS TLC", ""]
     names = []
     for sh in cat.values():
@@ -434,6 +436,22 @@ def shapes_tla(cat):
         out.append("  refs |-> %s," % setof("<<%s, %s, %s>>" % (s(a), s(b), s(c)) for a, b, c in refs))
         out.append("  dtags |-> %s," % setof("<<%s, %s, %s>>" % (s(d["sym"]), s(d["of"]), s(d["to"])) for d in (sh.get("dtags") or [])))
         out.append("  fbs |-> %s," % setof("<<%s, %s>>" % (s("FB:" + x), s(x)) for x in subjects))
+        # objects named by exactly one descriptor / referrer edge / digest tag (or being the root):
+        # without and with the fall-back indexes of the source (which name every referrer once more)
+        inc = {n["name"]: 0 for n in sh["nodes"]}
+        for n in mans:
+            for e in n["edges"]:
+                inc[e["c"]] += 1
+        for r in refs:
+            inc[r[0]] += 1
+        for d in (sh.get("dtags") or []):
+            inc[d["to"]] += 1
+        inc[sh["root"]] += 1
+        incfb = dict(inc)
+        for r in refs:
+            incfb[r[0]] += 1
+        out.append("  uniq |-> %s," % setof(s(k) for k in inc if inc[k] == 1))
+        out.append("  uniqfb |-> %s," % setof([s(k) for k in incfb if incfb[k] == 1] + [s("FB:" + x) for x in subjects]))
         out.append("  order |-> <<%s>>]" % ", ".join(s(n["name"]) for n in sh["nodes"]))
         out.append("")
     out.append("Shapes == " + " @@ ".join("(%s :> Shape_%s)" % (s(n), n) for n in names))
@@ -514,3 +532,131 @@ def model_agreement(pairs):
             notes[k] = notes.get(k, 0) + 1
     return {"scripts_exact": exact, "scripts_drift": drift, "result_agrees": agree, "result_differs": differ,
             "notes": dict(sorted(notes.items(), key=lambda kv: -kv[1])[:12])}
+
+
+# ------------------------------------------------------------------------------ runner parts
+def defect_prone(sc):
+    """Scenario class in which the known wait-loop defect (findings/C04-1) can show: a layout target
+    (ocidir.ManifestPut does not look at the context) with a cancellation or a request that fails."""
+    if sc["pair"] not in ("reg2dir", "dir2dir"):
+        return False
+    if sc.get("cancel"):
+        return True
+    for f in sc.get("faults") or []:
+        if f.get("kind") in FATAL + ["stall"]:
+            return True
+    for s in sc.get("script") or []:
+        if s.get("op") == "cancel" or (s.get("op") == "fault" and s.get("kind") in FATAL):
+            return True
+    return False
+
+
+def cause_of(sc):
+    """Input class of a scenario for the violation signature."""
+    fs = list(sc.get("faults") or []) + [{"host": s.get("host"), "kind": s.get("kind")} for s in (sc.get("script") or [])
+                                          if s.get("op") == "fault"]
+    if sc.get("death") or any(s.get("op") == "death" for s in (sc.get("script") or [])):
+        d = "death"
+    else:
+        d = ""
+    if sc.get("cancel") or any(s.get("op") == "cancel" for s in (sc.get("script") or [])) or \
+            any(f.get("kind") == "stall" for f in fs):
+        return "cancel" + ("+death" if d else "")
+    fatal = [f for f in fs if f.get("kind") in FATAL]
+    if fatal:
+        return "fault-%s-fatal" % fatal[0].get("host") + ("+death" if d else "")
+    if fs:
+        return "fault-%s-transient" % fs[0].get("host") + ("+death" if d else "")
+    return d or "none"
+
+
+def cover_sample(rng, scns, k, keys):
+    """Seeded sample of k scenarios that keeps at least one scenario for every value of every key
+    function (so a quick tier still touches every shape, pairing, option set, request class ...)."""
+    if len(scns) <= k:
+        return list(scns)
+    order = list(range(len(scns)))
+    rng.shuffle(order)
+    chosen, seen = [], set()
+    for i in order:
+        ks = [(j, kf(scns[i])) for j, kf in enumerate(keys)]
+        if any(x not in seen for x in ks):
+            chosen.append(i)
+            seen.update(ks)
+    rest = [i for i in order if i not in set(chosen)]
+    chosen += rest[:max(0, k - len(chosen))]
+    return [scns[i] for i in sorted(chosen)]
+
+
+def limit_defect_prone(rng, scns, k):
+    """Keep at most k scenarios of the class that triggers the known defect (each rejected trace costs
+    one TLC restart); the others of that class are dropped, counted in the evidence."""
+    dp = [s for s in scns if defect_prone(s)]
+    if len(dp) <= k:
+        return scns, 0
+    keep = set(id(s) for s in rng.sample(dp, k))
+    out = [s for s in scns if not defect_prone(s) or id(s) in keep]
+    return out, len(dp) - k
+
+
+def replay(engine):
+    """tools/check <ID> --replay file: re-drive the recorded scenario and re-validate."""
+    ctx = engine.ctx
+    rp = json.load(open(ctx.replay))
+    sc = rp["replay"]["scenario"]
+    pairs = engine.run([sc], "replay")
+    acc, rej = engine.validate(pairs, "replay")
+    return pairs, acc, rej
+
+
+def run_mc(ctx, runs):
+    """runs: list of (module, cfg, label, kwargs).  Returns (results, states, transitions)."""
+    res = []
+    for module, cfg, label, kw in runs:
+        res.append(ctx.tlc(module, cfg, label=label, **kw))
+    return res, sum(r["distinct"] for r in res), sum(r["generated"] for r in res)
+
+
+def defect_model_run(ctx):
+    """(D) as the code is written today (FixWaitErr = FALSE) on a layout target with cancellation:
+    TLC is expected to find the children-first violation of findings/C04-1; the repaired model
+    (C04_mc_layout.cfg) has to hold.  Neither outcome is a verdict about the code: the scenario class
+    is replayed on the real code by the sweep."""
+    r = ctx.tlc("ImageCopyMC", "C04_mc_defect.cfg", label="as written, layout target, cancel: expected counterexample",
+                allow_violation=True)
+    return {"violated": r["violated"], "distinct": r["distinct"]}
+
+
+def por_crosscheck(ctx):
+    """The reduced and the full exploration must reach the same observable states."""
+    sets = {}
+    for name in ("red", "full"):
+        r = ctx.tlc("ImageCopyPor", "C03_por_%s.cfg" % name, label="reduction cross-check (%s)" % name, timeout=3000)
+        sets[name] = set(line for line in r["output"].splitlines() if line.startswith('<<"ST"'))
+    if sets["red"] != sets["full"] or not sets["red"]:
+        raise vlib.ToolError("partial-order reduction of ImageCopy loses or invents observable states: "
+                             "%d reduced vs %d full" % (len(sets["red"]), len(sets["full"])))
+    return len(sets["red"])
+
+
+def samples_of(pairs, k=2):
+    out = []
+    for sc, t in pairs[:1] + pairs[-(k - 1):]:
+        out.append({"id": t["id"], "scenario": {x: sc[x] for x in sc if x not in ("script",)},
+                    "script_len": len(sc.get("script") or []),
+                    "events": [e for e in t["events"] if e["ev"] not in ("man", "edge")][:30]})
+    return out
+
+
+ENTRY_POINTS = ["regclient.ImageCopy (image.go: imageCopyOpt, imageCopyBlob, imageSeenOrWait)", "regclient.BlobCopy",
+                "scheme/reg: ManifestHead/Get/Put, BlobHead/Mount/Get/Put, ReferrerList, referrerPut, TagList",
+                "scheme/ocidir: ManifestHead/Get/Put, BlobHead/Get/Put, ReferrerList, TagList"]
+ASSUMPTIONS = [
+    "ideal hash: distinct contents have distinct digests; content is small (<= 1100 bytes), uploads monolithic",
+    "graphs from the catalogue of 14 shapes (harness/cmd/copydrv/content.go = spec/CopyShapes.tla)",
+    "model registries (zzverif/simreg) conform to the distribution spec; a registry changes state only by serving a request",
+    "TLC exhaustive only within the stated constants; the larger shapes fault-free under a hand partial-order "
+    "reduction (cross-checked against the full exploration on the small shapes in the thorough tier)",
+    "layout targets are observed at the copy's source requests, at its progress callbacks and at the end (not per syscall)",
+    "schedules are imposed at request granularity; settle detection is a short quiet window (a wrong guess is drift, never a verdict)",
+]
